@@ -232,3 +232,8 @@ V("C01", "ordered_plain_logic", "fire", [(RP, "                attrs[\"params\"]
 V("C04", "asr_terminator_startswith", "fire", [(TP, "tree[:] = filter(lambda x: not x.endswith(policy_end_blocks), tree)", "tree[:] = filter(lambda x: not x.strip().startswith(policy_end_blocks), tree)")], rule="C04.R6")
 V("C04", "twin_asr_terminator_exact", "silent", [(TP, "tree[:] = filter(lambda x: not x.endswith(policy_end_blocks), tree)", "tree[:] = filter(lambda x: x.strip() not in policy_end_blocks, tree)")])
 V("C08", "reversed_sorted_negated", "fire", [(PT, "            for item in sorted(ordered, key=(lambda item: (\n                (item[\"order\"] if item[\"direct\"] else -item[\"order\"]),\n                item[\"direct\"],\n            )))", "            for item in reversed(sorted(ordered, key=(lambda item: (\n                (-item[\"order\"] if item[\"direct\"] else item[\"order\"]),\n                not item[\"direct\"],\n            ))))")], rule="C08.R2")
+V("C09", "asr_block_exit_no_default_arm", "fire", [(TP, "            yield from block_wrapper(\"end-policy\")\n        else:\n            yield from super().block_exit(context)", "            yield from block_wrapper(\"end-policy\")")], rule="C09.R6")
+V("C05", "twin_setdefault_walk", "silent", [(TP, "            if key not in local_tree:\n                local_tree[key] = odict()\n            local_tree = local_tree[key]", "            local_tree = local_tree.setdefault(key, odict())")])
+V("C05", "twin_eafp_walk", "silent", [(TP, "            if key not in local_tree:\n                local_tree[key] = odict()\n            local_tree = local_tree[key]", "            try:\n                local_tree = local_tree[key]\n            except KeyError:\n                child = odict()\n                local_tree[key] = child\n                local_tree = child")])
+V("C05", "walk_no_descent_on_create", "fire", [(TP, "            if key not in local_tree:\n                local_tree[key] = odict()\n            local_tree = local_tree[key]", "            if key in local_tree:\n                local_tree = local_tree[key]\n            else:\n                local_tree[key] = odict()")], rule="C05.R3")
+V("C05", "walk_shares_one_child", "fire", [(TP, "    tree = odict()\n    for stack in _stacked(splitter(text), tuple(comments)):", "    tree = odict()\n    empty = odict()\n    for stack in _stacked(splitter(text), tuple(comments)):"), (TP, "            if key not in local_tree:\n                local_tree[key] = odict()\n            local_tree = local_tree[key]", "            if key not in local_tree:\n                local_tree[key] = empty\n            local_tree = local_tree[key]")], rule="C05.R3")
